@@ -693,8 +693,22 @@ func intrErrorsAs(e *Engine, c *CallCtx) []Outcome {
 		unsupported("errors.As target type %s", tgt.Dyn)
 	}
 	want := pt.Elem()
+	var pre []Outcome
 	if !err.Nil.IsFalse() && !err.Nil.IsTrue() {
-		unsupported("errors.As on maybe-nil error at %s", c.Site)
+		t, f := e.branch(c.St, err.Nil)
+		if t {
+			s2 := c.St
+			if f {
+				s2 = c.St.Fork()
+			}
+			s2.Assume(err.Nil)
+			pre = append(pre, Outcome{St: s2, Ret: False})
+		}
+		if !f {
+			return pre
+		}
+		c.St.Assume(Not(err.Nil))
+		err.Nil = False
 	}
 	var walk func(x VIface, depth int) bool
 	walk = func(x VIface, depth int) bool {
@@ -735,7 +749,7 @@ func intrErrorsAs(e *Engine, c *CallCtx) []Outcome {
 		}
 		return walk(e.unwrapOnce(c.St, x), depth+1)
 	}
-	return one(c.St, BoolC(walk(err, 0)))
+	return append(pre, Outcome{St: c.St, Ret: BoolC(walk(err, 0))})
 }
 
 func intrErrorsJoin(e *Engine, c *CallCtx) []Outcome {
